@@ -186,10 +186,19 @@ type c20ShutCase struct {
 	Phase   string `json:"phase"`   // at-backend | uploading | idle
 	Finish  string `json:"finish"`  // inside | outside
 	FinishS float64
-	Health  bool `json:"health_checks_enabled,omitempty"` // the agent also runs health checks (1 s interval, threshold 2) against a backend that always passes them
+	GraceMs int    `json:"grace_ms,omitempty"`              // > 0: a period that is not a whole number of seconds (overrides GraceS for the flag and the oracle)
+	Second  string `json:"second_signal,omitempty"`         // a second signal (INT/TERM) sent 300 ms after the first, during the period
+	Health  bool   `json:"health_checks_enabled,omitempty"` // the agent also runs health checks (1 s interval, threshold 2) against a backend that always passes them
 }
 
 var c20BeginRe = regexp.MustCompile(`Begin graceful shutdown`)
+
+func (c c20ShutCase) grace() time.Duration {
+	if c.GraceMs > 0 {
+		return time.Duration(c.GraceMs) * time.Millisecond
+	}
+	return time.Duration(c.GraceS) * time.Second
+}
 
 // c20Shutdown runs one shutdown scenario. Returns false if the "inside"
 // response was missing (caller confirms by a solo re-run).
@@ -283,7 +292,7 @@ func c20Shutdown(r *core.Run, agentBin string, md *fakes.Metadata, c c20ShutCase
 	}
 	args := []string{}
 	if c.GraceS > 0 {
-		args = append(args, fmt.Sprintf("--graceful-shutdown-timeout=%ds", c.GraceS))
+		args = append(args, "--graceful-shutdown-timeout="+c.grace().String())
 	}
 	if c.Health {
 		args = append(args, "--health-check-path=/healthz", "--health-check-interval-seconds=1", "--health-check-unhealthy-threshold=2")
@@ -373,7 +382,7 @@ func c20Shutdown(r *core.Run, agentBin string, md *fakes.Metadata, c c20ShutCase
 			return
 		}
 		tObs := time.Now()
-		grace := time.Duration(c.GraceS) * time.Second
+		grace := c.grace()
 		select {
 		case <-agent.Done():
 			if d := time.Since(tSig); d < grace-50*time.Millisecond {
@@ -438,6 +447,20 @@ func c20Shutdown(r *core.Run, agentBin string, md *fakes.Metadata, c c20ShutCase
 		}()
 	}
 	cls := fmt.Sprintf("shutdown|%s|grace=%d|%s|%s", c.Signal, c.GraceS, c.Phase, c.Finish)
+	if c.GraceMs > 0 {
+		cls += fmt.Sprintf("|fractional-period=%dms", c.GraceMs)
+	}
+	if c.Second != "" {
+		cls += "|second-signal=" + c.Second
+		go func() {
+			time.Sleep(300 * time.Millisecond)
+			s2 := syscall.SIGINT
+			if c.Second == "TERM" {
+				s2 = syscall.SIGTERM
+			}
+			agent.Signal(s2)
+		}()
+	}
 	if c.Health {
 		cls += "|health-checks-on"
 	}
@@ -468,7 +491,7 @@ func c20Shutdown(r *core.Run, agentBin string, md *fakes.Metadata, c c20ShutCase
 	held.rel <- []byte("[]")
 	tRel := time.Now()
 	// process exit timing
-	grace := time.Duration(c.GraceS) * time.Second
+	grace := c.grace()
 	var exitAt time.Time
 	select {
 	case <-agent.Done():
@@ -478,7 +501,7 @@ func c20Shutdown(r *core.Run, agentBin string, md *fakes.Metadata, c c20ShutCase
 	if exitAt.IsZero() {
 		r.Violate("C20:no-exit-after-grace-period", fmt.Sprintf("scenario %s: still running %v after SIG%s with a %ds period", c.Name, time.Since(tSig).Round(time.Millisecond), c.Signal, c.GraceS), c, nil)
 	} else if exitAt.Sub(tSig) < grace-50*time.Millisecond {
-		r.Violate("C20:exited-before-grace-period:"+c.Signal, fmt.Sprintf("scenario %s: exited %v after SIG%s, before the %ds period ended", c.Name, exitAt.Sub(tSig).Round(time.Millisecond), c.Signal, c.GraceS), c, nil)
+		r.Violate("C20:exited-before-grace-period:"+c.Signal, fmt.Sprintf("scenario %s: exited %v after SIG%s, before the %v period ended", c.Name, exitAt.Sub(tSig).Round(time.Millisecond), c.Signal, c.grace()), c, nil)
 	} else {
 		r.Max("max_exit_overshoot_ms", int((exitAt.Sub(tSig) - grace).Milliseconds()))
 	}
@@ -516,7 +539,7 @@ func c20Shutdown(r *core.Run, agentBin string, md *fakes.Metadata, c c20ShutCase
 		if !ok {
 			insideOK = false
 			if confirm {
-				r.Violate("C20:in-flight-request-not-answered:"+c.Phase, fmt.Sprintf("scenario %s: backend finished %.1fs after SIG%s, inside the %ds period, but %s (confirmed alone)", c.Name, c.FinishS, c.Signal, c.GraceS, why), c, nil)
+				r.Violate("C20:in-flight-request-not-answered:"+c.Phase, fmt.Sprintf("scenario %s: backend finished %.1fs after SIG%s, inside the %v period, but %s (confirmed alone)", c.Name, c.FinishS, c.Signal, c.grace(), why), c, nil)
 			}
 		} else {
 			r.Add("in_flight_requests_answered_during_shutdown", 1)
@@ -596,6 +619,14 @@ func C20(r *core.Run) {
 	}
 	// health checks keep passing while the grace period (longer than interval x threshold) runs: the in-flight request is still answered
 	scs = append(scs, c20ShutCase{Name: fmt.Sprintf("s%d", len(scs)), Signal: "INT", GraceS: 7, Phase: "at-backend", Finish: "inside", FinishS: 4.5, Health: true})
+	// a period that is not a whole number of seconds, with the backend finishing in its last second; and a second signal during the period
+	scs = append(scs, c20ShutCase{Name: fmt.Sprintf("s%d", len(scs)), Signal: "TERM", GraceS: 3, GraceMs: 3900, Phase: "at-backend", Finish: "inside", FinishS: 3.3})
+	scs = append(scs, c20ShutCase{Name: fmt.Sprintf("s%d", len(scs)), Signal: "INT", GraceS: 3, Phase: "at-backend", Finish: "inside", FinishS: 1.5, Second: "TERM"})
+	if !r.Quick() {
+		scs = append(scs, c20ShutCase{Name: fmt.Sprintf("s%d", len(scs)), Signal: "INT", GraceS: 1, GraceMs: 1800, Phase: "uploading", Finish: "inside", FinishS: 1.3},
+			c20ShutCase{Name: fmt.Sprintf("s%d", len(scs)+1), Signal: "TERM", GraceS: 2, Phase: "uploading", Finish: "inside", FinishS: 1, Second: "TERM"},
+			c20ShutCase{Name: fmt.Sprintf("s%d", len(scs)+2), Signal: "TERM", GraceS: 2, Phase: "idle", Finish: "inside", FinishS: 1, Second: "INT"})
+	}
 	if !r.Quick() {
 		scs = append(scs, c20ShutCase{Name: fmt.Sprintf("s%d", len(scs)), Signal: "TERM", GraceS: 7, Phase: "uploading", Finish: "inside", FinishS: 4.5, Health: true},
 			c20ShutCase{Name: fmt.Sprintf("s%d", len(scs)+1), Signal: "TERM", GraceS: 5, Phase: "at-backend", Finish: "outside", FinishS: 7, Health: true},
